@@ -193,7 +193,7 @@ def next (n : Nat) (s : VSt) (t : Tid) (c : Choice) : Option (VSt × Out) :=
   | .fStatDir =>
     match s.dir with
     | none => some (go .zEnter, {})
-    | some _ => some (go .fStatMark, {})
+    | some _ => some (go .fStatMark, { hook := some "downloaddir.between-stats" })
   -- downloadDir: os.Stat(partial); absent → the directory is reported as available
   | .fStatMark =>
     if s.mark then some (go .zEnter, {}) else some (go .idle, { ev := .avail })
@@ -201,7 +201,7 @@ def next (n : Nat) (s : VSt) (t : Tid) (c : Choice) : Option (VSt × Out) :=
   | .cStatDir =>
     match s.dir with
     | none => some (go .idle, { ev := .err })
-    | some _ => some (go .cStatMark, {})
+    | some _ => some (go .cStatMark, { hook := some "downloaddir.between-stats" })
   | .cStatMark =>
     if s.mark then some (go .idle, { ev := .err }) else some (go .idle, { ev := .avail })
   -- downloadZipCache.Do
@@ -269,7 +269,7 @@ def next (n : Nat) (s : VSt) (t : Tid) (c : Choice) : Option (VSt × Out) :=
   | .lStatDir =>
     match s.dir with
     | none => some (go .lMark, { hook := some "fetch.cleaned" })
-    | some _ => some (go .lStatMark, {})
+    | some _ => some (go .lStatMark, { hook := some "downloaddir.between-stats" })
   | .lStatMark =>
     if s.mark then some (go .lRmAll, {}) else some (go (.fUnlock .avail), {})
   -- RemoveAll(dir) of a partially extracted directory
@@ -460,17 +460,20 @@ def goFetch : List String :=
     "hook:fetch.done" ]
 
 def goFetchFromCache : List String := ["c.downloadDir"]   -- cStatDir, cStatMark
-def goDownloadDir : List String := ["os.Stat", "os.Stat"]  -- dir, then the marker
+def goDownloadDir : List String :=
+  [ "os.Stat(dir)",                     -- fStatDir / cStatDir / lStatDir: the directory first …
+    "hook:downloaddir.between-stats",   -- (only reached when the directory exists)
+    "os.Stat(partialPath)" ]            -- fStatMark / cStatMark / lStatMark: … then the marker
 
 def goDownloadZip : List String :=
   [ "c.downloadZipCache.Do",            -- zEnter
-    "os.Stat",                          -- zStat1
+    "os.Stat(zipfile)",                 -- zStat1
     "c.lockVersion",                    -- zLock
     "defer unlock",                     -- zUnlock
     "c.downloadZip1" ]
 
 def goDownloadZip1 : List String :=
-  [ "os.Stat",                          -- zStat2
+  [ "os.Stat(zipfile)",                 -- zStat2
     "os.MkdirAll",
     "filepath.Glob", "os.Remove",       -- zClean
     "tempFile",                         -- zCreate
